@@ -17,7 +17,7 @@ ASSUMPTIONS = ["listing order is imposed through an ordered set of tool outputs 
                "workflows in which the type of a workflow source is, contains, or is later given, a function type (a polymorphic operator over-applied through it) are not generated: "
                "the type node such an operator's step gets depends on the in-place normalisation of a type object shared through the source, which the "
                "value-based model does not have"]
-TRUSTED = ["harness/wfgen.py", "harness/graphgen.py", "harness/iso.py (exact graph isomorphism; rdflib.compare.isomorphic only as a fast path for positive answers)"]
+TRUSTED = ["harness/wfgen.py", "harness/graphgen.py", "harness/iso.py (exact graph isomorphism by individualisation-refinement; rdflib.compare is not used)"]
 
 
 def build(lang, wfobj, bits, passthrough):
